@@ -261,6 +261,9 @@ class FaultPolicy:
     def inline(self, unit: FuncUnit) -> bool:
         return True
 
+    def subscr_may_raise(self, node: ast.Subscript) -> bool:
+        return False
+
 
 class Builder:
     def __init__(self, program: Program, policy: Optional[FaultPolicy] = None, max_depth: int = 8,
@@ -757,6 +760,9 @@ class Builder:
             fr = self.expr(e.slice, fr, frame)
             if isinstance(e.ctx, ast.Load):
                 n, fr = self.step(fr, 'subscr', e, inst)
+                if self.policy.subscr_may_raise(e):
+                    self.g.evs[n].info['may_raise'] = True
+                    self.raise_to([(n, 'exc')], ('exc', ('ext', 'builtins.KeyError')), frame)
             return fr
         if isinstance(e, ast.BoolOp):
             out: Frontier = []
